@@ -98,6 +98,7 @@ fn cmd_drive(m: &BTreeMap<String, String>) {
         rustc: m.get("rustc").map(PathBuf::from),
         watchdog_s: get(m, "watchdog", 10),
         sweep: get(m, "sweep", 16),
+        marathon: get(m, "marathon", 0),
         dump_sessions: get(m, "dump-sessions", 0),
         out: out.clone(),
     };
